@@ -5,7 +5,14 @@ S2  layout functions of the crate vs the extracted model (LC/LR/LB/PA lines), th
     the extracted monitor (T lines), set_len targets / accepted lengths vs layout_from_file_len (LF lines).
 S3  the extracted, verified monitor `contract_okb` decides every recorded backend trace (complete traces
     must be accepted); every sampled allocated page must be inside the model's layout and below the
-    backend length (U lines); the image right after every set_len must reopen to a commit point.
+    backend length (U lines); the image right after every set_len must reopen to a commit point;
+    the extracted, verified timing oracle `timing_check` decides the close() counts observed after every
+    API step of the close-timing scenarios and of every open (HT lines): 0 before the closing event
+    (drop of the Database without a live writer / end of the writer that was live at the drop) has
+    returned, 1 from then on, 1 after a failing open, no call after the close.
+S2  (also) H lines: the shutdown model of coq/Storage/Shutdown.v run on the abstract events of each API step
+    (with the backend's answers as inputs) must show the same close counts and the same stream of
+    CheckedBackend entries (latch flags on entry) / backend calls / Close / Drop as the latch log of the crate.
 """
 import json
 import os
@@ -75,6 +82,7 @@ def evaluate(ctx, label=""):
     kinds = {}
     samples = []
     n_traces = 0
+    n_h = n_ht = ht_samples = 0
     for i, (c, a, b, m) in enumerate(zip(cases, impl, model, meta)):
         k = c.split(" ", 1)[0]
         kinds[k] = kinds.get(k, 0) + 1
@@ -125,6 +133,64 @@ def evaluate(ctx, label=""):
                                "format": "U backend_len nf cap hdr ps trailing region index order -> valid in start end inb"})
             if a != b:
                 s2.append("line %d (U): impl %r vs model %r for %r" % (i + 1, a, b, c))
+        elif k == "HT":
+            n_ht += 1
+            if b != "ok":
+                mm = re.match(r"bad (\S+) expected=(\d+) observed=(\d+) after=(\d+)$", b)
+                if mm:
+                    step, exp, obs, aft = int(mm.group(1), 16), int(mm.group(2)), int(mm.group(3)), int(mm.group(4))
+                    if obs < exp:
+                        viol = "late-close"
+                        say = ("close() had not been called when the closing event returned: %d close() call(s) seen, the "
+                               "documented contract (StorageBackend::close, 'Close semantics' of Database) requires %d" % (obs, exp))
+                    elif obs > exp and exp == 0:
+                        viol = "early-close"
+                        say = "close() was called (%d time(s)) although neither the Database was dropped without a live writer nor the deferring writer had ended" % obs
+                    elif obs > exp:
+                        viol = "second-close"
+                        say = "close() was called %d times" % obs
+                    else:
+                        viol = "backend-call-after-close"
+                        say = "%d backend call(s) were made after close()" % aft
+                    scen = re.search(r'"scenario":"([^"]*)"', m)
+                    scen = scen.group(1) if scen else "?"
+                    try:
+                        md = json.loads(m)
+                    except Exception:
+                        md = m
+                    api = None
+                    if isinstance(md, dict) and isinstance(md.get("steps"), list) and step < len(md["steps"]):
+                        api = md["steps"][step].get("api")
+                    what = "%s: scenario %s, API step %d%s: %s" % (viol, scen, step, (" (`%s`)" % api) if api else "", say)
+                    fam = scen.split("/")[0].replace("close-timing:", "").replace("open-path:", "open:")
+                    ctx.violation("c20-%s-%s" % (viol, fam), what,
+                                  {"scenario": md, "offending_api_step": step, "offending_api": api,
+                                   "close_calls_expected_after_that_step": exp, "close_calls_observed": obs,
+                                   "backend_calls_after_close": aft,
+                                   "observation": c.split(" ", 2)[2] if c.count(" ") >= 2 else c,
+                                   "observation_format": "per API step: <abstract events>;<close() calls seen so far>;<backend calls seen after a close>",
+                                   "oracle_verdict": b,
+                                   "how_to_replay": "VERIF_SEED=%d ./check C20 --tier %s (harness/src/bin/c20.rs + c20_close.rs regenerate the scenario from the seed; it is single-threaded and deterministic)" % (ctx.seed, ctx.tier)})
+                else:
+                    s2.append("line %d (HT): the event list is not a possible history for the oracle: %r for %r" % (i + 1, b, c[:300]))
+            if a != b:
+                s2.append("line %d (HT): harness' own timing oracle %r vs extracted oracle %r" % (i + 1, a, b))
+            elif ht_samples < 3 and '"fault":{' in m and "/rt+table" in m:
+                ht_samples += 1
+                steps = c.split(" ")[2:]
+                samples.append({"close_timing_observation": [st if len(st) < 90 else st[:40] + "..." + st[-40:] for st in steps],
+                                "format": "per API step: <events>;<close() calls so far>;<calls after close>", "oracle": b,
+                                "scenario": m[:400]})
+        elif k == "H":
+            n_h += 1
+            if a != b:
+                # (if the same scenario also violates the timing oracle, the HT line that follows reports it)
+                xs, ys = a.split(" "), b.split(" ")
+                j = next((j for j in range(min(len(xs), len(ys))) if xs[j] != ys[j]), min(len(xs), len(ys)))
+                s2.append("line %d (H): shutdown model vs crate differ at API step %d: crate %r model %r (%s)" % (
+                    i + 1, j, xs[j][-160:] if j < len(xs) else "<missing>", ys[j][-160:] if j < len(ys) else "<missing>", m[:300]))
+            elif len(samples) < 8 and len(c) < 300 and "close:" in c:
+                samples.append({"case": c, "impl_and_model": b})
         elif k == "LF":
             if a == "?opened" and b == "none":
                 s2.append("line %d (LF): an unclean file whose length has no valid layout was opened: %r (%s)" % (i + 1, c, m))
@@ -148,7 +214,9 @@ def evaluate(ctx, label=""):
     m = re.search(r"traces=(\d+) events=(\d+) distinct_traces=(\d+) distinct_nontrivial=(\d+)", stats)
     cov["evaluations"] = len(cases)
     cov["distinct_nontrivial"] = int(m.group(4)) if m else 0
-    cov["traces_validated_against_impl"] = n_traces
+    cov["traces_validated_against_impl"] = n_traces + n_h
+    cov["shutdown_model_streams_compared"] = n_h
+    cov["close_timing_observations_decided"] = n_ht
     cov["backend_calls_monitored"] = int(m.group(2)) if m else 0
     cov["case_kinds"] = kinds
     cov["distribution"] = stats
@@ -179,17 +247,25 @@ def run(ctx):
         searched = "re-ran the harness at thorough budget with seed %d: %d cases, %d violations found" % (
             seed0 * 7919 + 13, cov2.get("evaluations", 0), len(ctx.violations))
     cov["rule"] = ("one evaluation = one line decided by the extracted model (a complete backend trace, a layout function call, "
-                   "a used-page bound); distinct_nontrivial = distinct traces (hash of the event list) that contain a set_len or a "
-                   "failed backend call or come from a failing-open / drop-order / thread scenario")
+                   "a used-page bound, a close-timing observation, a shutdown-model stream); distinct_nontrivial = distinct traces "
+                   "(hash of the event list) that contain a set_len or a failed backend call or come from a failing-open / "
+                   "drop-order / thread scenario, plus distinct close-timing observations (hash of events + counts) with a failed "
+                   "backend call, a failing close() or a reader population")
     cov["trusted_base"] = ["Coq 8.16.1 kernel + vm_compute", "tools/gen_consts.py (MAX_REGIONS)",
                            "harness/src/bin/c20.rs + harness/src/c08_util.rs (monitoring backend records every call; scenario generators)",
                            "extraction (ExtrOcamlBasic only) + ocaml/c20_driver.ml",
                            "hooks: redb::verif::layout_*/page_number_address_range, Database::verif_snapshot (H3), "
-                           "Builder::verif_open_read_only_with_backend"]
+                           "Builder::verif_open_read_only_with_backend, redb::verif_c08 latch log (entries of CheckedBackend with "
+                           "the latch flags), H4 pause points used as phase markers (X.db_drop.close, T.start_write, T.end_write)",
+                           "harness/src/c20_close.rs: abstraction of an API step to the events of coq/Storage/Shutdown.v "
+                           "(which handle kinds own an Arc<TransactionalMemory> is checked by the Drop placement on every run)"]
     assumptions = [
         "the monitoring backend sees every call redb makes on the backend object (it is the object handed to redb)",
         "API-call histories, drop orders, thread schedules and fault positions are sampled per run, not exhausted",
-        "close hand-off theorem: each tracker critical section is one atomic step (Mutex), SC memory",
+        "close hand-off / shutdown theorems: each tracker critical section is one atomic step (Mutex), SC memory; the "
+        "close-timing scenarios are single-threaded (threads: F-C20-2 scenarios, judged by the trace monitor only)",
+        "shutdown model: which storage calls a phase makes and what the backend answers are inputs (all values are covered "
+        "by the theorems); panics during shutdown (crate::panicking()) are not modelled",
     ]
     return ctx.finish("proof", cov, assumptions=assumptions, s2_ok=not s2,
                       s2_detail=(s2[:8] if s2 else None), searched=searched)
